@@ -60,6 +60,32 @@ class C07(common.Prop):
                        "suffix": [rng.randrange(256) for _ in range(rng.choice([1, 3, 40]))]}
         for c in self.wide_cases(rng, tier):
             yield c
+        for c in self.long_cases(rng, tier):
+            yield c
+
+    def long_cases(self, rng, tier):
+        """files whose frame count sits at the edge of 16 bits (the width of the v0.1 frame field; v0.2's has 32): 65535 frames
+        and its neighbours, one person, one point - the count a reader takes from the field is the count it must insist on"""
+        for i in range(1 if tier == "quick" else 3):
+            F = [65535, 65536, 65534][i] if tier != "quick" else rng.choice([65535, 65535, 65535, 65536])
+            D = rng.choice([1, 2])
+            comps = [{"name": pg.cps("c0"), "format": pg.cps("XY"[:D] + "C"), "points": [pg.cps("p0")], "limbs": [], "colors": []}]
+            pose = {"dims": [640, 480, 0], "comps": comps, "fps": pg.b64(25.0), "shape": [F, 1, 1, D], "cshape": [F, 1, 1], "dtype": "f32",
+                    "edge": "none", "data": [pg.b64(float(k % 4000)) for k in range(F * D)],
+                    "conf": [pg.b64(0.0 if (k % 7 == 3) else float(1 + k % 5)) for k in range(F)]}
+            w = pg.impl_write(pose)
+            if w[0] != "ok":
+                continue
+            data = w[1]
+            size = len(data)
+            ds = size - F * (D + 1) * 4
+            cs = ds + F * D * 4
+            cuts = sorted(set([ds, ds + 1, ds + 4 * D, cs - 1, cs, cs + 4, size - 4, size - 1] +
+                              [rng.randrange(ds, cs) for _ in range(3)] + [rng.randrange(cs, size) for _ in range(3)]))
+            lo, hi = rng.randrange(0, 9), F - rng.randrange(0, 3)
+            for kind, args, prime in (("bytes", {}, False), ("stream", {"start_frame": lo, "end_frame": hi}, rng.random() < 0.5)):
+                yield {"file": data, "cuts": cuts, "src": kind, "args": dict(args), "prime": prime, "F": F, "long": True,
+                       "suffix": [rng.randrange(256) for _ in range((D + 1) * 4 * rng.choice([1, 2]))]}
 
     def wide_cases(self, rng, tier):
         """files whose frame window spans several KB of the confidence block (a reader that treats large tensor reads
@@ -101,10 +127,10 @@ class C07(common.Prop):
 
     def features(self, case):
         return (case["src"], "window" if case["args"] else "full", "primed" if case["prime"] else "empty",
-                "wide-window" if case.get("wide") else "small" if len(case["file"]) <= 1500 else "large")
+                "wide-window" if case.get("wide") else "frames~2^16" if case.get("long") else "small" if len(case["file"]) <= 1500 else "large")
 
     def nontrivial(self, case):
-        return len(case["cuts"]) > 20
+        return len(case["cuts"]) > 20 or bool(case.get("long"))
 
     def _prime(self, case):
         pg.set_memo("same" if case["prime"] else "empty", same_bytes=case["file"])
